@@ -297,13 +297,13 @@ def pyfloat(field: str) -> float:
 def conv_side(side):
     """a `loadFields` reply of the driver with its opaque field strings converted by `pyfloat`"""
     if "raises" in side["loaded"]:
-        return {"raises": "ValueError"}
-    return {"shape": side["loaded"]["shape"], "data": [ctok(pyfloat(f)) for f in side["loaded"]["fields"]],
-            "dtype": "float64", "warns": bool(side["warns"])}
+        return {"raises": True}
+    return {"shape": side["loaded"]["shape"], "data": [ctok(pyfloat(f)) for f in side["loaded"]["fields"]], "dtype": "float64"}
 
 
 def run_load(path):
-    """pewlib's loader on a file: shape, values (bit tokens, NaN canonical), dtype, whether it warned; or what it raised"""
+    """pewlib's loader on a file: (shape, values as bit tokens with NaN canonical, dtype) or that it raised; whether it
+    warned about an empty file; a note"""
     import warnings
 
     from pewlib.io import textimage
@@ -313,9 +313,9 @@ def run_load(path):
         try:
             out = textimage.load(path)
         except Exception as e:
-            return {"raises": type(e).__name__}, f"{type(e).__name__}: {e}"[:200]
-    return {"shape": list(out.shape), "data": [ctok(v) for v in out.ravel()], "dtype": str(out.dtype),
-            "warns": any("Empty input file" in str(w.message) for w in caught)}, ""
+            return {"raises": True}, False, f"{type(e).__name__}: {e}"[:200]
+    return ({"shape": list(out.shape), "data": [ctok(v) for v in out.ravel()], "dtype": str(out.dtype)},
+            any("Empty input file" in str(w.message) for w in caught), "")
 
 
 def read_chars(path) -> str:
@@ -740,11 +740,10 @@ class C16(Prop):
             if rep["rendered"] != text:  # only a hand-written replay gets here (separator lists that do not fit the columns)
                 return outcome(None, None, None, spec_ok=True, model_ok=True, undetermined=True, hyp=False,
                                note="bad case: the harness file is not the model's saveWith rendering")
-        impl, note = run_load(path)
+        impl, _, note = run_load(path)
         model = conv_side(rep["real"])
         spec_fields = rep["spec"]
-        spec = {"shape": spec_fields["shape"], "data": [ctok(pyfloat(f)) for f in spec_fields["fields"]], "dtype": "float64",
-                "warns": False}
+        spec = {"shape": spec_fields["shape"], "data": [ctok(pyfloat(f)) for f in spec_fields["fields"]], "dtype": "float64"}
         if conv_side(rep["model"]) != spec:  # the loader model on the model's own rendering: equal by theorem
             note = (note + " the loader model on the model's rendering differs from the specification (Clean violated?)").strip()
             hyp = False
@@ -773,13 +772,13 @@ class C16(Prop):
             (tmp / "comma.csv").write_text(rep["comma"], newline="")
         except UnicodeEncodeError as e:
             return outcome(None, None, None, spec_ok=True, model_ok=True, undetermined=True, hyp=False, note=f"bad case: {e}")
-        impl_a, note_a = run_load(tmp / "image.csv")
-        impl_b, note_b = run_load(tmp / "comma.csv")
+        impl_a, warned, note_a = run_load(tmp / "image.csv")
+        impl_b, _, note_b = run_load(tmp / "comma.csv")
         impl = {"as_written": impl_a, "with_commas": impl_b}
         model = {"as_written": conv_side(rep["real"]), "with_commas": conv_side(rep["real_comma"])}
         if in_class:
             sf = rep["spec"]
-            img = {"shape": sf["shape"], "data": [ctok(pyfloat(f)) for f in sf["fields"]], "dtype": "float64", "warns": False}
+            img = {"shape": sf["shape"], "data": [ctok(pyfloat(f)) for f in sf["fields"]], "dtype": "float64"}
             spec = {"as_written": img, "with_commas": img}
         else:  # the property does not say what such a file is: the model is all there is to compare with
             spec = model
@@ -787,8 +786,9 @@ class C16(Prop):
             side = model[k]
             if "raises" in side:
                 feats.add("foreign:raises")
-            elif side["warns"]:
+            elif rep["real"]["warns"]:  # the warning is no observation of the property: counted, not compared
                 feats.add("foreign:empty")
+                feats.add("foreign:empty:warning-as-modelled" if warned else "foreign:empty:warning-not-as-modelled")
             else:
                 feats |= shape_features(*side["shape"]) | classify(side["data"])
         return outcome(impl, model, spec, hyp=in_class, features=feats, note=(note_a + " " + note_b).strip())
@@ -837,7 +837,9 @@ class C16(Prop):
             return [tok(v + 0.0) for v in vals]
 
         def meta_view(m):
-            return {**{k: m[k] for k in ("file_type", "version", "byte_order", "header_type", "whole", "piece", "scalars", "encoding")},
+            return {**{k: m[k] for k in ("file_type", "version", "byte_order", "header_type", "whole", "piece", "encoding")},
+                    # which element is the active scalar is no part of the property: it has to be one of them
+                    "scalars_is_an_element": m["scalars"] in [a["name"] for a in m["arrays"]],
                     "origin": num(m["origin"]), "spacing": num(m["spacing"], want_spacing),
                     "arrays": [{k: a[k] for k in ("name", "type", "format", "offset")} for a in m["arrays"]]}
 
